@@ -13,9 +13,11 @@ TraceLog == ndJsonDeserialize("trace.ndjson")
 VARIABLES l,        \* next line of TraceLog
           verdict,
           expect,   \* [Ctxs -> what the end of a non-executed request must look like]
-          lastk     \* kind of the request that ended last ("new", "replay", ...)
+          lastk,    \* kind of the request that ended last ("new", "replay", ...)
+          nonconf   \* snapshots whose leaf open counts differ from the reference
+                    \* without any predicate failing (counted, the trace goes on)
 
-tvars == <<vars, l, verdict, expect, lastk>>
+tvars == <<vars, l, verdict, expect, lastk, nonconf>>
 
 Line == TraceLog[l]
 IsEvent(e) == l <= Len(TraceLog) /\ Line.ev = e /\ l' = l + 1
@@ -39,16 +41,16 @@ ResetTo(names) ==
 
 TInit ==
   /\ InitState(<<>>)
-  /\ l = 1 /\ verdict = "ok" /\ expect = [x \in Ctxs |-> NoExpect] /\ lastk = "none"
+  /\ l = 1 /\ verdict = "ok" /\ expect = [x \in Ctxs |-> NoExpect] /\ lastk = "none" /\ nonconf = 0
 
 Skip(v) == /\ UNCHANGED vars /\ verdict' = v
 
-KeepT == UNCHANGED <<expect, lastk>>
+KeepT == UNCHANGED <<expect, lastk, nonconf>>
 
 TReset ==
   /\ IsEvent("reset")
   /\ ResetTo(Line.names)
-  /\ verdict' = "ok" /\ expect' = [x \in Ctxs |-> NoExpect] /\ lastk' = "none"
+  /\ verdict' = "ok" /\ expect' = [x \in Ctxs |-> NoExpect] /\ lastk' = "none" /\ UNCHANGED nonconf
 
 TClock ==
   /\ IsEvent("clock")
@@ -154,7 +156,7 @@ TSeq ==
   /\ IF Line.x \notin Ctxs \/ cx[Line.x].kind # "idle" THEN Skip("NC:harness-context") /\ KeepT
      ELSE /\ SeqStart(Line.x, Line.sid, Line.slot, Line.sq, Line.cache, Line.shape)
           /\ expect' = [expect EXCEPT ![Line.x] = [kind |-> reply'.kind, c |-> reply'.c]]
-          /\ UNCHANGED lastk
+          /\ UNCHANGED <<lastk, nonconf>>
           /\ verdict' =
                IF Line.st = "PANIC" THEN "ok"   \* the panic event follows
                ELSE IF reply'.kind = "new" THEN
@@ -174,11 +176,11 @@ TEnd ==
        /\ SeqEnd(x, Line.rh)
        /\ verdict' = IF Line.sts # reply'.res.sts \/ Line.rops # reply'.res.ops THEN "NC:reply-summary" ELSE "ok"
        /\ expect' = [expect EXCEPT ![x] = NoExpect]
-       /\ lastk' = "new"
+       /\ lastk' = "new" /\ UNCHANGED nonconf
      ELSE
        /\ UNCHANGED vars
        /\ expect' = [expect EXCEPT ![x] = NoExpect]
-       /\ lastk' = expect[x].kind
+       /\ lastk' = expect[x].kind /\ UNCHANGED nonconf
        /\ verdict' =
             LET k == expect[x].kind  c == expect[x].c IN
             IF k = "replay" THEN
@@ -401,21 +403,24 @@ Retained ==
 
 NoEffectKinds == {"replay", "false", "misordered", "error"}
 
+LeafNC == "NC:leaf-open-count-differs-from-reference"
+
 TSnap ==
   /\ IsEvent("snap")
-  /\ UNCHANGED vars /\ KeepT
+  /\ UNCHANGED <<vars, expect, lastk>>
+  /\ nonconf' = IF LeafVerdict = LeafNC THEN nonconf + 1 ELSE nonconf
   /\ verdict' =
        LET after == lastk \in NoEffectKinds /\ Line.why = "c" IN
        IF Line.hookpanic # "" THEN "NC:state-hook-panicked"
        ELSE IF Line.why = "final" /\ Retained THEN "C18:state-retained-after-all-leases-expired"
-       ELSE IF LeafVerdict # "ok" /\ ~(after /\ LeafVerdict = "NC:leaf-open-count-differs-from-reference") THEN LeafVerdict
+       ELSE IF LeafVerdict \notin {"ok", LeafNC} THEN LeafVerdict
        ELSE IF ~ObsExclusion THEN "C20:two-owners-hold-conflicting-locks"
        ELSE IF LockCountVerdict # "ok" THEN LockCountVerdict
        ELSE IF \/ \E p \in Rng(Line.pool) : p.use # Cardinality({r \in ObsOofs : r.f = p.f})
                \/ \E r \in ObsOofs : ~\E p \in Rng(Line.pool) : p.f = r.f
          THEN "C18:opened-files-pool-does-not-account-for-the-open-files"
        ELSE IF after /\ (ObsOofs # ModelOofs \/ ObsLofs # ModelLofs \/ ObsLocks # ModelLocks \/ ObsDir # ModelDir
-                           \/ LeafVerdict # "ok")
+                           \/ LeafVerdict = LeafNC)
          THEN "C19:request-that-must-not-execute-changed-state"
        ELSE IF ObsLocks # ModelLocks THEN "C20:lock-table-differs-from-reference"
        ELSE IF ObsOofs # ModelOofs THEN "NC:open-state-differs-from-reference"
@@ -440,7 +445,9 @@ TraceSpec == TInit /\ [][TNext]_tvars
 VerdictOK == verdict = "ok"
 
 \* Only what the python side needs is printed for a failing trace.
-TraceAlias == [l |-> l, verdict |-> verdict]
+TraceAlias == [l |-> l, verdict |-> verdict, nonconf |-> nonconf]
+
+NonconfReport == (l <= Len(TraceLog)) \/ PrintT(<<"NONCONF", nonconf>>)
 
 Accepted ==
   /\ TLCGet("stats").diameter - 1 = Len(TraceLog)
